@@ -135,6 +135,12 @@ class PipelineBase(Obligation):
         blk=run.ghost['dirs'].get(d,{}).get(n,'missing')
         if blk=='missing': raise Unsupported('load_linkfile of a file that glob did not return: '+p)
         if blk is None: return err(self.b.variant('Error','Opaque',[mk_string('unparsable',True)]))
+        if isinstance(blk,tuple) and blk[0]=='json':
+            # the file content is a JSON document (attacker-controlled): what the crate's own decoders make of it is what gets loaded
+            from mirsym import models_de as md
+            run.ghost['stage'].append(('load',p))
+            try: return ok(md.de_type(e,run,'Metablock',clone_val(blk[1]),'reader'))
+            except md.DeFail: return err(self.b.variant('Error','Opaque',[mk_string('unparsable',True)]))
         run.ghost['stage'].append(('load',p))
         return ok(e.clone(run,Ref(Cell(blk))))
     def s_in_toto_run(self,e,run,a,f):
